@@ -61,6 +61,9 @@ type Config struct {
 
 	// MaxRecursionDepth limits recursion during NFA compilation.
 	// Default: 100
+	//
+	// The limit never rejects a syntax tree that regexp/syntax accepts
+	// (see nfaRecursionDepth), so that Compile accepts what stdlib accepts.
 	MaxRecursionDepth int
 
 	// EnableASCIIOptimization enables ASCII runtime detection (V11-002 optimization).
@@ -165,6 +168,24 @@ func (c Config) Validate() error {
 	}
 
 	return nil
+}
+
+// syntaxMaxNesting is the nesting depth regexp/syntax allows; deeper expressions
+// are rejected by syntax.Parse with "expression nests too deeply".
+const syntaxMaxNesting = 1000
+
+// nfaRecursionDepth returns the recursion limit handed to the NFA compiler.
+//
+// Every expression regexp/syntax accepts must compile (stdlib compatibility),
+// and the parser already bounds nesting at syntaxMaxNesting levels. The NFA
+// compiler needs up to two frames per level (x{n,m} is expanded through a
+// synthetic x? or x* node), so the limit is never lower than that; it still
+// stops runaway recursion on hand-built syntax trees.
+func (c Config) nfaRecursionDepth() int {
+	if c.MaxRecursionDepth < 2*syntaxMaxNesting {
+		return 2 * syntaxMaxNesting
+	}
+	return c.MaxRecursionDepth
 }
 
 // ConfigError represents an invalid configuration parameter.
